@@ -152,6 +152,26 @@ Theorem C01_checker_accepts_model : forall c, no_recover c = true ->
 Proof. exact checker_accepts_model. Qed.
 Print Assumptions C01_checker_accepts_model.
 
+(* tracing is finished (finish trigger / signal in another thread) while frames are open: the exit hook
+   that notices it - [exit_stop]: bookkeeping, mtd_dtor restores every slot and drops the shadow stack,
+   the slot is re-read - hands back the real return address of the activation that owns slot d, also for
+   a tail-called function whose saved address is the trampoline.  [BInvW] is the invariant every
+   (recover-free) call tree maintains inside an activation (ShadowProofs.body_correct). *)
+Theorem C01_finish_exit_returns_to_real_caller : forall d ra low m0 s chain,
+  (1 <= d)%nat -> Forall (fun f => (floc f < d)%nat) low ->
+  BInvW d ra low m0 s chain -> chain <> [] ->
+  exists s', exit_stop s = Some (s', Real ra) /\ rs s' = [] /\ mem s' d = Real ra.
+Proof. exact stop_exit_returns_to_real_caller. Qed.
+Print Assumptions C01_finish_exit_returns_to_real_caller.
+
+(* handing back the saved parent_ip instead (a seeded regression) is wrong for a tail-called function *)
+Theorem C01_finish_saved_ip_refuted :
+  let s := fst (run_ops st0 [OPush 1%nat 100%nat; OEnter (HM false) 1%nat; OEnter (HM false) 1%nat]) in
+  option_map snd (exit_stop s) = Some (Real 100) /\
+  match rs s with f :: _ => fip f = Tramp KM | [] => False end.
+Proof. exact stop_saved_ip_is_trampoline_refuted. Qed.
+Print Assumptions C01_finish_saved_ip_refuted.
+
 (* ---- (iii) errno ---- *)
 Theorem C01_errno_preserved : forall (A : Type) (inner : Z -> A * Z) (e : Z),
   snd (with_saved_errno inner e) = e /\ fst (with_saved_errno inner e) = fst (inner e).
